@@ -3,6 +3,7 @@ package main
 // Function encoder: go/ssa -> passive-form SMT with cut loops, contracts at calls, obligations.
 
 import (
+	"crypto/sha1"
 	"fmt"
 	"go/token"
 	"go/types"
@@ -541,7 +542,15 @@ func (e *Enc) globalInit(l *Loc) {
 		g := e.g()
 		id, ok := g.errGlobals[l.Name]
 		if !ok {
-			id = len(g.errGlobals) + 1
+			// a fixed number per sentinel (from its name), so that the text of an obligation does not depend on the order in
+			// which the process met the sentinels; distinct names collide with probability 2^-40
+			h := sha1.Sum([]byte(l.Name))
+			id = 1 + int(uint64(h[0])<<32|uint64(h[1])<<24|uint64(h[2])<<16|uint64(h[3])<<8|uint64(h[4]))
+			for _, other := range g.errGlobals {
+				if other == id {
+					id++
+				}
+			}
 			g.errGlobals[l.Name] = id
 		}
 		e.r.items = append([]Item{e.r.items[0], {"assume", fmt.Sprintf("(assert (= %s %d))", c, id), -1}}, e.r.items[1:]...)
